@@ -1,6 +1,7 @@
 package main
 
 import (
+	"sort"
 	"fmt"
 	"go/token"
 	"go/types"
@@ -150,6 +151,7 @@ func checkC12(p *Program, r *Report) {
 		}
 	}
 	if len(missing) > 0 {
+		sort.Strings(missing)
 		r.Unresolved("C12.facts", "fields with roles "+strings.Join(missing, ", "))
 		return
 	}
